@@ -39,12 +39,13 @@ ANY = _Any()
 
 class MLambda:
     _sim_kind = 'lambda'
-    __slots__ = ('params', 'body', 'model')
+    __slots__ = ('params', 'body', 'model', 'epoch')
 
     def __init__(self, params, body, model):
         self.params = params
         self.body = body
         self.model = model
+        self.epoch = model.epoch      # which eval call created it
 
     def __deepcopy__(self, memo):
         return self           # functions are copied by reference, as in Python
@@ -117,6 +118,8 @@ class Model:
         self.probe_calls = 0
         self.max_scope_depth = 2
         self.stats = None
+        self.epoch = 0
+        self.active_epochs = []
 
     # ------------------------------------------------------------------ entry point
     def run(self, tree, names=None):
@@ -127,6 +130,8 @@ class Model:
         else:
             self.scopes = [self.builtins, self.host]
         self.steps = 0
+        self.epoch += 1
+        self.active_epochs = []
         try:
             v = self.prog(tree)
             return ('value', v)
@@ -396,6 +401,17 @@ class Model:
         raise MErr('other', 'not callable')
 
     def call_lambda(self, f, args):
+        # Lambdas are dynamically scoped within one evaluation. What a lambda created by an EARLIER eval call sees
+        # of the scopes of calls in progress (and vice versa) is specified by no property: not judged.
+        if any(e != f.epoch for e in self.active_epochs):
+            raise Unspec('nested call between lambdas created by different eval calls')
+        self.active_epochs.append(f.epoch)
+        try:
+            return self._call_lambda(f, args)
+        finally:
+            self.active_epochs.pop()
+
+    def _call_lambda(self, f, args):
         scope = {p: a for p, a in zip(f.params, args)}
         self.scopes.append(scope)
         if len(self.scopes) > self.max_scope_depth:
